@@ -79,7 +79,7 @@ register("C01", module="histchecks", fn="case_c01", replay="replay_c01", binarie
 
 register("C02", module="histchecks", fn="case_c02", replay="replay_c02", binaries=("simplz",),
          cases={"quick": 32, "thorough": 1500}, budget={"quick": 280, "thorough": 3300}, level="exploration",
-         rule="as C01 with a directory cache shared by the whole history (dircompress on/off, cache workers 0/2) and 3-7 steps biased towards rm -rf plz-out and reverts to earlier states, so that artifacts are restored from entries stored under other states; oracle: after every build the requested outputs equal the from-scratch no-cache build of the CURRENT tree",
+         rule="as C01 with a directory cache shared by the whole history (dircompress on/off, cache workers 0/2) and 3-7 steps biased towards rm -rf plz-out and reverts to earlier states, so that artifacts are restored from entries stored under other states (60% follow an A-B-A template; outputs in subdirectories and directory outputs are over-represented; in 30% a SECOND CHECKOUT of the same tree at another root shares the cache and builds alternate between the two); oracle: after every build the requested outputs equal the from-scratch no-cache build of the CURRENT tree",
          assumptions=HIST_ASSUME, components={"real": REAL_WHOLE, "stub": STUB_WHOLE})
 
 register("C03", module="histchecks", fn="case_c03", replay="replay_c03", binaries=("simplz",),
